@@ -4,7 +4,7 @@ from __future__ import annotations
 import ast
 
 from engine.defuse import value_sources
-from engine.flow import dominating_guards, falls_through, reachable_from_entry, returns_of
+from engine.flow import dominating_guards, expand_aliases, falls_through, path_avoiding, reachable_from_entry, returns_of, same_name_value
 from engine.model import Symbol
 from .c03 import taint_reaches
 from .common import CALLS
@@ -27,6 +27,101 @@ META = {
 
 def is_type(t, names):
     return t != "ANY" and bool(t) and all(isinstance(a, str) and a in names for a in t)
+
+
+
+CODEC_INVERSE = {"b64encode": "b64decode", "urlsafe_b64encode": "urlsafe_b64decode", "standard_b64encode": "standard_b64decode",
+                 "b32encode": "b32decode", "b16encode": "b16decode", "hexlify": "unhexlify", "hex": "fromhex", "b85encode": "b85decode",
+                 "a85encode": "a85decode"}
+
+
+def feed_sequence(an, fn, pparam):
+    """What is hashed, in order: (kinds, encodings, parts, hasher constructor call).
+
+    The hasher is the object whose .digest() is taken; its input is the constructor argument followed by the argument of
+    every .update() on it, `a + b` counting as a then b.  Each piece is classified by provenance: 'plaintext' when it
+    comes from parameter *pparam* (through .encode() / a conditional encode), 'salt' when it comes from a salt parameter
+    / attribute or os.urandom (through slicing), '?' otherwise.  kinds is None when no hasher is found."""
+    g = an.cfg(fn)
+    digests = [n for n in g.nodes if n.kind == "call" and isinstance(n.ast.func, ast.Attribute) and n.ast.func.attr in ("digest", "hexdigest")]
+    if not digests:
+        return None, [], [], None
+    dn = digests[0]
+    recv = dn.ast.func.value
+
+    def is_ctor(e):
+        return isinstance(e, ast.Call) and ((isinstance(e.func, ast.Name) and "algorithm" in e.func.id) or
+                                            (isinstance(e.func, ast.Attribute) and "algorithm" in e.func.attr))
+    ctor = None
+    feeds = []      # (expr, node)
+    if is_ctor(recv):
+        ctor = recv
+    elif isinstance(recv, ast.Name):
+        for k, pl in value_sources(fn, recv, dn):
+            if k == "expr" and is_ctor(pl):
+                ctor = pl
+    if ctor is None:
+        return None, [], [], None
+    cn = g.nodes_for(ctor)
+    for a in ctor.args[:1]:
+        feeds.append((a, cn[0] if cn else None))
+    if isinstance(recv, ast.Name):
+        ups = [n for n in g.nodes if n.kind == "call" and isinstance(n.ast.func, ast.Attribute) and n.ast.func.attr == "update"
+               and isinstance(n.ast.func.value, ast.Name) and same_name_value(fn, n.ast.func.value, n, recv, dn) and n.ast.args]
+        ups.sort(key=lambda n: (n.lineno, getattr(n.ast, "col_offset", 0)))
+        for u in ups:
+            # every update counts only if it happens on every path to the digest
+            if path_avoiding(an, fn, g.entry, lambda x: x is dn, lambda x, u=u: x is u) is not None:
+                feeds.append((ast.Constant(value="<conditional update>"), u))
+            else:
+                feeds.append((u.ast.args[0], u))
+    encodings = []
+    parts = []
+
+    def flatten(e):
+        if isinstance(e, ast.BinOp) and isinstance(e.op, ast.Add):
+            return flatten(e.left) + flatten(e.right)
+        return [e]
+
+    def classify(e, node, depth=0):
+        if depth > 6:
+            return {"?"}
+        out = set()
+        if isinstance(e, ast.Name):
+            srcs = value_sources(fn, e, node)
+        else:
+            srcs = [("expr", e)]
+        for k, pl in srcs:
+            if k == "param":
+                out.add("plaintext" if pl == pparam else ("salt" if "salt" in pl else "?"))
+            elif k == "expr" and isinstance(pl, ast.Attribute) and isinstance(pl.value, ast.Name) and pl.value.id == fn.self_name:
+                out.add("salt" if pl.attr == "salt" else "?")
+            elif k == "expr" and isinstance(pl, ast.Subscript) and isinstance(pl.slice, ast.Slice):
+                out |= classify(pl.value, None, depth + 1)
+            elif k == "expr" and isinstance(pl, ast.Call) and isinstance(pl.func, ast.Attribute) and pl.func.attr == "encode":
+                inner = classify(pl.func.value, None, depth + 1)
+                if inner == {"plaintext"}:
+                    encodings.append(tuple(ast.unparse(a) for a in pl.args) + tuple("%s=%s" % (kw.arg, ast.unparse(kw.value)) for kw in pl.keywords))
+                out |= inner
+            elif k == "expr" and isinstance(pl, ast.Call) and ast.unparse(pl.func).endswith("urandom"):
+                out.add("salt")
+            elif k == "expr" and isinstance(pl, ast.IfExp):
+                out |= classify(pl.body, None, depth + 1) | classify(pl.orelse, None, depth + 1)
+            elif k == "expr" and isinstance(pl, ast.Name) and pl is not e:
+                out |= classify(pl, None, depth + 1)
+            elif k == "expr" and isinstance(pl, ast.Call) and isinstance(pl.func, ast.Name) and pl.func.id in ("bytes",) and len(pl.args) == 1:
+                out |= classify(pl.args[0], None, depth + 1)
+            else:
+                out.add("?")
+        return out
+    kinds = []
+    for e, node in feeds:
+        for piece in flatten(e):
+            ks = classify(piece, node)
+            kind = next(iter(ks)) if len(ks) == 1 else "?"
+            kinds.append(kind)
+            parts.append((kind, piece, node))
+    return kinds, sorted(set(encodings)), parts, ctor
 
 
 def check(ctx):
@@ -72,61 +167,35 @@ def check(ctx):
             for k, pl in value_sources(create, v.args[1], r))
         ctx.ob("digest.from-hasher", create, r.ast, okd, "the stored digest is hasher.digest()" if okd else
                "the digest component is not the hasher's digest", node=r)
-    # the hasher is fed salt + plaintext
-    g = an.cfg(create)
-    upd = [n for n in g.nodes if n.kind == "call" and n.ast.args and "plain" in ast.unparse(n.ast.args[0])
-           and not (isinstance(n.ast.func, ast.Name) and n.ast.func.id in ("isinstance", "len", "str", "bytes"))
-           and not (isinstance(n.ast.func, ast.Attribute) and n.ast.func.attr in ("encode", "decode"))
-           and (isinstance(n.ast.func, ast.Attribute) and n.ast.func.attr == "update" or any(t.kind == "user" for t in an.targets(create, n)))]
-    ctx.need(bool(upd), "DigestValue.create no longer feeds the plaintext to a hasher: vanished anchor")
-
-    def operands(fn, e):
-        """(salt-ish, plaintext-ish) classification of a `a + b` hash input"""
-        if not (isinstance(e, ast.BinOp) and isinstance(e.op, ast.Add)):
-            return None
-        def kind(x):
-            txt = ast.unparse(x)
-            if "salt" in txt:
-                return "salt"
-            if "plain" in txt:
-                return "plaintext"
-            return "?"
-        return kind(e.left), kind(e.right)
-
-    co = operands(create, upd[0].ast.args[0])
-    # the same hasher object produces the digest on every path to the return
-    ctx.ob("hash-input.create", create, upd[0].ast, co == ("salt", "plaintext"), "hash(salt + plaintext)" if co == ("salt", "plaintext") else
-           "create hashes %s" % (co,), node=upd[0])
+    # the hasher is fed salt, then plaintext -- as one `salt + plaintext` or as consecutive update() calls
+    co, c_enc, c_parts, c_hasher = feed_sequence(an, create, pparam)
+    if co is None:
+        co, c_enc, c_parts = [], [], []
+    ctx.ob("hash-input.create", create, "bytes fed to the hasher", co == ["salt", "plaintext"], "hash(salt + plaintext)" if co == ["salt", "plaintext"] else
+           ("create hashes %s" % (co,) if co else "DigestValue.create does not take the digest of a hasher fed with the plaintext"))
     g2 = an.cfg(challenge)
-    hcalls = [n for n in g2.nodes if n.kind == "call" and n.ast.args and isinstance(n.ast.args[0], ast.BinOp)]
-    ctx.need(bool(hcalls), "DigestValue.challenge no longer recomputes the hash: vanished anchor")
-    ch = operands(challenge, hcalls[0].ast.args[0])
-    ctx.ob("hash-input.agree", challenge, hcalls[0].ast, ch == co and ch is not None,
-           "create and challenge hash the salt and the plaintext in the same order" if ch == co else
-           "create hashes %s but challenge hashes %s: no secret ever verifies" % (co, ch), node=hcalls[0])
+    ch, h_enc, h_parts, h_hasher = feed_sequence(an, challenge, challenge.positional_params[1])
+    if ch is None:
+        ctx.ob("hash-input.agree", challenge, "bytes fed to the hasher", False, "DigestValue.challenge no longer recomputes the hash of its argument")
+        hcalls = []
+    else:
+        hcalls = [h_hasher]
+        ctx.ob("hash-input.agree", challenge, "bytes fed to the hasher", ch == co,
+               "create and challenge hash the salt and the plaintext in the same order" if ch == co else
+               "create hashes %s but challenge hashes %s: no secret ever verifies" % (co, ch))
     # the salt used in create's hash is the salt stored
     salt_arg = None
+    ret_node = None
     for r in returns_of(an, create):
         if isinstance(r.ast.value, ast.Call) and r.ast.value.args:
-            salt_arg = r.ast.value.args[0]
-    same_salt = isinstance(salt_arg, ast.Name) and isinstance(upd[0].ast.args[0], ast.BinOp) and isinstance(upd[0].ast.args[0].left, ast.Name) \
-        and salt_arg.id == upd[0].ast.args[0].left.id
+            salt_arg, ret_node = r.ast.value.args[0], r
+    salt_parts = [(e, n) for kind, e, n in c_parts if kind == "salt"]
+    same_salt = isinstance(salt_arg, ast.Name) and len(salt_parts) == 1 and isinstance(salt_parts[0][0], ast.Name) \
+        and same_name_value(create, salt_arg, ret_node, salt_parts[0][0], salt_parts[0][1])
     ctx.ob("salt.stored-is-used", create, "salt hashed == salt stored", same_salt, "the salt mixed into the hash is the one stored" if same_salt else
            "the salt stored differs from the salt mixed into the hash")
     # text encoding agrees
-    def encodes(fn):
-        """every transformation applied to the plaintext variable (method calls on it, calls taking it, re-assignments)"""
-        out = []
-        for x in ast.walk(fn.node):
-            if isinstance(x, ast.Assign) and any(isinstance(t, ast.Name) and "plain" in t.id for t in x.targets):
-                v = x.value
-                if isinstance(v, ast.Call) and isinstance(v.func, ast.Attribute) and v.func.attr == "encode" and isinstance(v.func.value, ast.Name) \
-                        and "plain" in v.func.value.id:
-                    out.append(tuple(ast.unparse(a) for a in v.args) + tuple("%s=%s" % (k.arg, ast.unparse(k.value)) for k in v.keywords))
-                else:
-                    out.append(("transform", ast.unparse(v)[:60]))
-        return sorted(out)
-    e1, e2 = encodes(create), encodes(challenge)
+    e1, e2 = sorted(c_enc), sorted(h_enc)
     ctx.ob("hash-input.encoding", challenge, "str plaintext encoded identically", e1 == e2 and len(e1) == 1,
            "both sides encode text with .encode(%s)" % ", ".join(e1[0]) if e1 == e2 and len(e1) == 1 else
            "create encodes text with %s, challenge with %s" % (e1, e2))
@@ -147,9 +216,10 @@ def check(ctx):
     ft = falls_through(an, challenge) or bool(returns_of(an, challenge))
     ctx.ob("challenge.succeeds-silently", challenge, "normal return on match", ft, "a match returns normally", nontrivial=False)
     # the algorithm used to recompute is the stored one
-    usealg = isinstance(hcalls[0].ast.func, ast.Attribute) and hcalls[0].ast.func.attr == "algorithm"
-    ctx.ob("challenge.same-algorithm", challenge, hcalls[0].ast.func, usealg, "recomputes with the algorithm stored in the value" if usealg else
-           "challenge does not use the stored algorithm", node=hcalls[0])
+    usealg = bool(hcalls) and isinstance(hcalls[0].func, ast.Attribute) and hcalls[0].func.attr == "algorithm" \
+        and isinstance(hcalls[0].func.value, ast.Name) and hcalls[0].func.value.id == challenge.self_name
+    ctx.ob("challenge.same-algorithm", challenge, "hasher constructed from self.algorithm", usealg, "recomputes with the algorithm stored in the value" if usealg else
+           "challenge does not use the stored algorithm")
 
     # ---------------------------------------------------------------- C09.2 fresh salt
     h = model.method("ChallengeField", "_hash")
@@ -187,6 +257,8 @@ def check(ctx):
         if n.kind == "assign" and isinstance(n.ast, ast.Assign) and isinstance(n.ast.value, ast.Call) and \
                 any(e[0] == "URANDOM" for nn in g.nodes_for(n.ast.value) for e in calls.direct(create, nn)):
             arg = n.ast.value.args[0] if n.ast.value.args else None
+            if arg is not None:
+                arg = expand_aliases(create, arg, n)
             size_ok = isinstance(arg, ast.Attribute) and arg.attr == "digest_size"
             guard_ok = any((not tr) and isinstance(t.ast, ast.Name) and "salt" in t.ast.id for t, tr in dominating_guards(an, create, n))
             tgt_ok = any(isinstance(t, ast.Name) and "salt" in t.id for t in n.ast.targets)
@@ -201,25 +273,83 @@ def check(ctx):
     tb, tp = model.method("ChallengeField", "to_basic"), model.method("ChallengeField", "to_python")
     wkeys = set()
     enc_calls = 0
-    for r in returns_of(an, tb):
-        if isinstance(r.ast.value, ast.Dict):
-            for k, v in zip(r.ast.value.keys, r.ast.value.values):
+    enc_names = {}
+    vparam_tb = tb.positional_params[2]
+    fields_dv = list(fields or [])
+
+    def component_of(e, node):
+        """which DigestValue component does *e* denote (value.salt, an unpacked `salt, digest, _ = value`, value[0])?"""
+        if isinstance(e, ast.Attribute) and isinstance(e.value, ast.Name) and e.value.id == vparam_tb:
+            return e.attr
+        if isinstance(e, ast.Subscript) and isinstance(e.value, ast.Name) and e.value.id == vparam_tb and isinstance(e.slice, ast.Constant) \
+                and isinstance(e.slice.value, int) and e.slice.value < len(fields_dv):
+            return fields_dv[e.slice.value]
+        if isinstance(e, ast.Name):
+            comps = set()
+            for k, pl in value_sources(tb, e, node):
+                if k == "unpack" and isinstance(pl[0], ast.Name) and pl[0].id == vparam_tb and pl[1] is not None and pl[1] < len(fields_dv):
+                    comps.add(fields_dv[pl[1]])
+                elif k == "expr" and isinstance(pl, (ast.Attribute, ast.Subscript)):
+                    comps.add(component_of(pl, None))
+                else:
+                    comps.add(None)
+            return next(iter(comps)) if len(comps) == 1 else None
+        return None
+
+    def written_entries(v, node):
+        """(key constant, value expression, substitution for comprehension variables) for a dict display / comprehension"""
+        out = []
+        if isinstance(v, ast.Dict):
+            for k, val in zip(v.keys, v.values):
                 if isinstance(k, ast.Constant):
-                    wkeys.add(k.value)
-                    src_attr = [x.attr for x in ast.walk(v) if isinstance(x, ast.Attribute) and x.attr in ("salt", "digest")]
-                    okk = src_attr == [k.value] and any(isinstance(x, ast.Call) and ast.unparse(x.func).endswith("b64encode") for x in ast.walk(v))
-                    enc_calls += 1
-                    ctx.ob("codec.writes-own-component", tb, v, okk, "%r is the base64 of value.%s" % (k.value, k.value) if okk else
-                           "key %r is not the base64 of the matching component" % k.value, node=r)
+                    out.append((k.value, val, {}))
+        elif isinstance(v, ast.DictComp) and len(v.generators) == 1 and not v.generators[0].ifs and isinstance(v.generators[0].iter, (ast.Tuple, ast.List)) \
+                and isinstance(v.generators[0].target, ast.Tuple) and all(isinstance(t, ast.Name) for t in v.generators[0].target.elts) \
+                and isinstance(v.key, ast.Name):
+            names = [t.id for t in v.generators[0].target.elts]
+            for item in v.generators[0].iter.elts:
+                if isinstance(item, ast.Tuple) and len(item.elts) == len(names):
+                    sub = dict(zip(names, item.elts))
+                    kx = sub.get(v.key.id)
+                    if isinstance(kx, ast.Constant):
+                        out.append((kx.value, v.value, sub))
+        return out
+    for r in returns_of(an, tb):
+        v = r.ast.value
+        for k, pl in (value_sources(tb, v, r) if isinstance(v, ast.Name) else [("expr", v)]):
+            if k != "expr":
+                continue
+            for key, val, sub in written_entries(pl, r):
+                wkeys.add(key)
+                comps = set()
+                for x in ast.walk(val):
+                    if isinstance(x, ast.Name) and x.id in sub:
+                        comps.add(component_of(sub[x.id], r))
+                    elif isinstance(x, (ast.Attribute, ast.Subscript, ast.Name)) and component_of(x, r) is not None and x.__class__ is not ast.Name:
+                        comps.add(component_of(x, r))
+                    elif isinstance(x, ast.Name) and x.id not in (vparam_tb, "base64") and component_of(x, r) is not None:
+                        comps.add(component_of(x, r))
+                encs = {ast.unparse(x.func).split(".")[-1] for x in ast.walk(val) if isinstance(x, ast.Call) and ast.unparse(x.func).split(".")[-1] in CODEC_INVERSE}
+                enc_names.setdefault(key, set()).update(encs)
+                okk = comps == {key} and len(encs) == 1
+                enc_calls += 1
+                ctx.ob("codec.writes-own-component", tb, "%r: %s" % (key, ast.unparse(val)[:50]), okk, "%r is the base64 of the value's %s" % (key, key) if okk else
+                       "key %r is not the base64 of the matching component (it is built from %s)" % (key, sorted(map(str, comps))), node=r)
     rkeys = {}
+    mismatch = []
     for x in ast.walk(tp.node):
         if isinstance(x, ast.Subscript) and isinstance(x.slice, ast.Constant) and isinstance(x.slice.value, str):
             par = getattr(x, "_parent", None)
-            rkeys[x.slice.value] = isinstance(par, ast.Call) and ast.unparse(par.func).endswith("b64decode")
+            dec = ast.unparse(par.func).split(".")[-1] if isinstance(par, ast.Call) else None
+            want = {CODEC_INVERSE[e] for e in enc_names.get(x.slice.value, set())}
+            rkeys[x.slice.value] = dec is not None and want == {dec}
+            if dec is not None and want and want != {dec}:
+                mismatch.append("%r is written with %s but read with %s" % (x.slice.value, sorted(enc_names.get(x.slice.value, [])), dec))
     ctx.ob("codec.key-sets", tp, "keys written == keys read", wkeys == set(rkeys) == {"salt", "digest"},
            "to_basic writes and to_python reads {salt, digest}" if wkeys == set(rkeys) else "to_basic writes %s, to_python reads %s" % (sorted(wkeys), sorted(rkeys)))
     ctx.ob("codec.inverse-encoding", tp, "b64encode <-> b64decode", all(rkeys.values()) and bool(rkeys),
-           "both components are decoded with b64decode" if all(rkeys.values()) and rkeys else "a component is read without base64 decoding")
+           "both components are decoded with the inverse of the encoder that wrote them" if all(rkeys.values()) and rkeys else
+           ("; ".join(mismatch) if mismatch else "a component is read without base64 decoding"))
     # to_python(dict) builds DigestValue(salt, digest, self.algorithm) in that order
     for r in returns_of(an, tp):
         v = r.ast.value
@@ -253,6 +383,28 @@ def check(ctx):
     init = model.method("ChallengeField", "__init__")
     rej = any(n.kind == "raise" for n in an.cfg(init).nodes)
     ctx.ob("algorithms.unknown-rejected", init, "unknown algorithm -> raise", rej, "unknown names are rejected" if rej else "unknown algorithm names are accepted")
+    # a digest computed while serving one configuration is not remembered on the (schema-wide) field object
+    for mname, f in sorted(CF.methods.items()):
+        if mname in ("__init__", "__setkey__"):
+            continue
+        for n in an.cfg(f).nodes:
+            if n.kind != "assign" or not isinstance(n.ast, (ast.Assign, ast.AnnAssign, ast.AugAssign)):
+                continue
+            tgts = n.ast.targets if isinstance(n.ast, ast.Assign) else [n.ast.target]
+            for t in tgts:
+                base = t
+                while isinstance(base, ast.Subscript):
+                    base = base.value
+                if isinstance(base, ast.Attribute) and isinstance(base.value, ast.Name) and base.value.id == f.self_name:
+                    v = n.ast.value
+                    hashed_v = False
+                    for k, pl in (value_sources(f, v, n) if v is not None else []):
+                        if k == "expr" and isinstance(pl, ast.Call) and any(c in (create, h) for nn in an.cfg(f).nodes_for(pl) for c in an.callees(f, nn)):
+                            hashed_v = True
+                    ctx.ob("salt.not-memoised", f, n.ast, not hashed_v,
+                           "field state written here does not hold a computed digest" if not hashed_v else
+                           "a digest computed for one configuration is kept on the field (shared by every configuration of the schema): "
+                           "later configurations reuse its salt instead of drawing a fresh one", node=n, nontrivial=hashed_v)
     # __setdefault__: plaintext default is hashed
     sd = model.method("ChallengeField", "__setdefault__")
     sdv = model.method("Config", "_set_default_value")
